@@ -92,6 +92,31 @@ func dice(rng *rng.RNG) func(int) int {
 	}
 }
 
+// checkedRandomRange is randomRange reporting an empty or too wide range as an error
+func checkedRandomRange(rng *rng.RNG) func(int, int) (int, error) {
+	unchecked := randomRange(rng)
+	return func(lowerBound, upperBound int) (int, error) {
+		if upperBound < lowerBound {
+			return 0, fmt.Errorf("upper bound %d is less than lower bound %d", upperBound, lowerBound)
+		}
+		if upperBound-lowerBound+1 <= 0 {
+			return 0, fmt.Errorf("range from %d to %d is too wide", lowerBound, upperBound)
+		}
+		return unchecked(lowerBound, upperBound), nil
+	}
+}
+
+// checkedDice is dice reporting a number of sides less than one as an error
+func checkedDice(rng *rng.RNG) func(int) (int, error) {
+	unchecked := dice(rng)
+	return func(sides int) (int, error) {
+		if sides < 1 {
+			return 0, fmt.Errorf("a dice needs at least one side, got %d", sides)
+		}
+		return unchecked(sides), nil
+	}
+}
+
 // round rounds f to the nearest integer
 func round(f float64) float64 {
 	return math.Round(f)
